@@ -332,7 +332,8 @@ INERT = [re.compile(p) for p in [
     r"^\w+ = context\.get\('\w+', UNDEFINED\)$", r"^\w+ = _import_ns\.get\('\w+', context\.get\('\w+', UNDEFINED\)\)$",
     r"^\w+ = _import_ns\.get\('\w+', UNDEFINED\)$", r"^if \w+ is UNDEFINED:$", r"^\w+ = context\['\w+'\]$",
     r"^loop = __M_loop = runtime\.LoopStack\(\)$", r"^loop = __M_loop\._exit\(\)$",
-    r"^context\.caller_stack\.nextcaller = None$", r"^return \[[\w,]*\]$", r"^_import_ns = \{\}$",
+    r"^context\.caller_stack\.nextcaller = None$", r"^context\.caller_stack\.nextcaller = __M_nextcaller$",
+    r"^__M_nextcaller = context\.caller_stack\.nextcaller$", r"^return \[[\w,]*\]$", r"^_import_ns = \{\}$",
     r"^__M_\w+ = \w+$", r"^return __M_buf\.getvalue\(\)$",
     r"^if 'parent' not in context\._data or not hasattr\(context\._data\['parent'\], '\w+'\):$",
     r"^__M_writer\('(?:[^'\\]|\\.)*'\)$", r'^__M_writer\("(?:[^"\\]|\\.)*"\)$',          # literal text
@@ -2083,7 +2084,7 @@ def items_of_recording(rec):
             tail, tail_item = 1, "itail"
         elif kind == "visitCallTag":
             head, head_item = 2, "callhead:%d" % o
-            tail, tail_item = 11, "calltail:%d" % o
+            tail, tail_item = 12, "calltail:%d" % o
         elif kind == "visitTextTag" and p["filtered"]:
             head, head_item = 2, "tthead"
             tail, tail_item = 5, "tttail:%d" % o
